@@ -233,6 +233,13 @@ def drive(
         entries = [(e[0], e[1], e[2] if len(e) > 2 else 0, i) for i, e in enumerate(schedule)]
 
         def deliver(tmpl: Any, idx: int) -> None:
+            if isinstance(tmpl, dict) and isinstance(tmpl.get("id"), str) and tmpl["id"].startswith("$IDOF:"):
+                # the id the library itself chose for the request with that method (known once it has been written)
+                for _t, it in rec.items:
+                    w0 = wire_of(it)
+                    if isinstance(w0, dict) and w0.get("method") == tmpl["id"][6:] and "id" in w0:
+                        tmpl = dict(tmpl, id=w0["id"])
+                        break
             wire = subst(tmpl, mapping)
             if isinstance(wire, dict) and "$raw" in wire:
                 item = wire["$raw"]
